@@ -134,8 +134,14 @@ impl<'a> SdesChunk<'a> {
 
     /// The length of this chunk
     pub fn length(&self) -> usize {
-        let len = Self::MIN_LEN + self.items.iter().fold(0, |acc, item| acc + item.length());
-        pad_to_4bytes(len)
+        // SSRC, then type + length octets and the value of each item, then the null terminator,
+        // the whole padded to the next 32-bit boundary
+        let len = Self::MIN_LEN
+            + self
+                .items
+                .iter()
+                .fold(0, |acc, item| acc + 2 + item.length());
+        pad_to_4bytes(len + 1)
     }
 
     /// The items in this chunk
